@@ -458,6 +458,12 @@ fn verif_rt_sync() {
                 vec![Op::Insert(k, v), Op::Get(k), Op::Advance(d), Op::Get(k), Op::Sync, Op::Advance(d), Op::Contains(k), Op::Get(k), Op::Sync],
                 vec![Op::Insert(k, v), Op::Insert(j, v), Op::Advance(d), Op::InvalidateAll, Op::Sync, Op::Iter, Op::Insert(k, v + 1), Op::Sync, Op::Get(k), Op::Iter],
                 vec![Op::Insert(k, v), Op::Sync, Op::Invalidate(k), Op::Get(k), Op::Insert(k, v + 1), Op::Get(k), Op::Sync, Op::Get(k)],
+                // a read record still queued when the same key is written again (update / invalidate_all + re-insert / invalidate + re-insert):
+                // applied late it must not move the entry's timestamps backwards
+                vec![Op::Insert(k, v), Op::Sync, Op::Get(k), Op::Advance(d), Op::Insert(k, v + 1), Op::Sync, Op::Advance(d), Op::Get(k), Op::Contains(k), Op::Iter],
+                vec![Op::Insert(k, v), Op::Sync, Op::Get(k), Op::Advance(d), Op::InvalidateAll, Op::Advance(d), Op::Insert(k, v + 1), Op::Sync, Op::Get(k), Op::Contains(k), Op::Iter],
+                vec![Op::Insert(k, v), Op::Sync, Op::Get(k), Op::Advance(d), Op::Invalidate(k), Op::Insert(k, v + 1), Op::Sync, Op::Advance(d), Op::Get(k), Op::Contains(k), Op::Iter],
+                vec![Op::Insert(k, v), Op::Get(k), Op::Advance(d), Op::Insert(k, v + 1), Op::Advance(d), Op::Sync, Op::Get(k), Op::Iter],
             ];
             for t in &templates {
                 for regime_a in [true, false] {
